@@ -243,6 +243,13 @@ def check(prop, tier, replay=None):
     if res["violated"] or not res["ok"]:
         raise MachineryError(f"leg M: {res['violated']} / {res['error']}\n" + tlc.counterexample(res, 40))
     V.cov["exhaustive"] = True
+    if not fxmode:
+        # the field decomposition for ALL whole-millisecond values (symbolic integers)
+        detail, done = tlc.apalache("CliInt", [("Exists", True), ("Unique", True), ("HoursWrap", False)], wd, timeout=900)
+        V.leg("unbounded", tool="apalache-mc 0.58", module="CliInt", obligations=3, discharged=done, detail=detail,
+              checker_cmd="apalache-mc check --inv=Exists|Unique|HoursWrap --length=0 CliInt.tla")
+        V.cov["obligations"] = 3
+        V.cov["discharged"] = done
     vecs = {}
     for j in res["json"]:
         vecs.setdefault(canon(j["opts"]), j)
